@@ -1,0 +1,111 @@
+//! Verification hooks (only compiled with `--cfg bevy_cobweb_verif`). Read-only views of the react
+//! bookkeeping and an event sink for the system-command runner. Nothing here changes behaviour.
+use crate::prelude::*;
+use bevy::prelude::*;
+
+use std::sync::Mutex;
+
+//-------------------------------------------------------------------------------------------------------------------
+
+/// Snapshot of internal bookkeeping.
+#[derive(Debug, Clone, Default, PartialEq, Eq)]
+pub struct VerifSnapshot
+{
+    /// `SyscommandCounter`.
+    pub counter: usize,
+    /// Number of buffered (postponed) system commands.
+    pub buffered: usize,
+    /// `(currently_reacting, prepared.len())` of the broadcast/entity-event tracker.
+    pub ev: (bool, usize),
+    /// Same for the system-event tracker.
+    pub se: (bool, usize),
+    /// Same for the entity-reaction tracker.
+    pub er: (bool, usize),
+    /// `(currently_reacting, prepared.len(), reactor_handle.is_some())` of the despawn tracker.
+    pub de: (bool, usize, bool),
+    /// Number of live `SystemCommandStorage` components.
+    pub systems: usize,
+    /// Number of those whose callback is currently taken.
+    pub taken: usize,
+    /// Total number of entries in all `EntityReactors` components.
+    pub ereactors: usize,
+    /// Number of entities carrying a `DataEntityCounter`.
+    pub data_entities: usize,
+    /// Entry counts of the type-wide tables: component (ins+mut+rem), despawn, any-entity-event, resource, broadcast.
+    pub table_entries: [usize; 5],
+    /// Key counts of the same tables.
+    pub table_keys: [usize; 5],
+    /// Number of handles held by tables or `EntityReactors` whose reactor entity is dead.
+    pub dead_handles: usize,
+}
+
+/// Takes a snapshot of the react bookkeeping.
+pub fn snapshot(world: &mut World) -> VerifSnapshot
+{
+    let counter = **world.resource::<SyscommandCounter>();
+    let buffered = world.resource::<CobwebCommandQueue<BufferedSyscommand>>().verif_len();
+    let ev = world.resource::<EventAccessTracker>().verif_state();
+    let se = world.resource::<SystemEventAccessTracker>().verif_state();
+    let er = world.resource::<EntityReactionAccessTracker>().verif_state();
+    let de = world.resource::<DespawnAccessTracker>().verif_state();
+    let mut taken = 0usize;
+    let mut systems = 0usize;
+    let mut q = world.query::<&SystemCommandStorage>();
+    for s in q.iter(world) { systems += 1; if s.verif_is_taken() { taken += 1; } }
+    let mut q = world.query::<&EntityReactors>();
+    let ereactors: usize = q.iter(world).map(|e| e.iter_reactors().count()).sum();
+    let mut handle_targets: Vec<Entity> = q.iter(world).flat_map(|e| e.iter_reactors().map(|s| *s).collect::<Vec<_>>()).collect();
+    let mut q = world.query::<&DataEntityCounter>();
+    let data_entities = q.iter(world).count();
+    let (table_entries, table_keys, mut targets) = world.resource::<ReactCache>().verif_sizes();
+    handle_targets.append(&mut targets);
+    let dead_handles = handle_targets.iter().filter(|e| world.get_entity(**e).is_err()).count();
+    VerifSnapshot{
+        counter, buffered, ev, se, er, de, systems, taken, ereactors, data_entities, table_entries, table_keys,
+        dead_handles
+    }
+}
+
+//-------------------------------------------------------------------------------------------------------------------
+
+/// Returns `true` if `entity` carries the (crate-private) local data component of entity world reactor `T`.
+pub fn has_entity_world_local<T: EntityWorldReactor>(world: &World, entity: Entity) -> bool
+{
+    world.get_entity(entity).map(|e| e.contains::<EntityWorldLocal<T>>()).unwrap_or(false)
+}
+
+//-------------------------------------------------------------------------------------------------------------------
+
+/// Events reported by `syscommand_runner`.
+#[derive(Debug, Clone, Copy, PartialEq, Eq)]
+pub enum RunnerEvent
+{
+    /// The runner was entered for `sys` (also on replay of a postponed command).
+    Enter{ sys: Entity, ticket: u64, idx: usize },
+    /// The command was postponed because `sys` is currently running.
+    Postpone{ sys: Entity, ticket: u64 },
+    /// The command was aborted.
+    Abort{ sys: Entity, ticket: u64, why: &'static str },
+    /// The callback is about to run.
+    Start{ sys: Entity, ticket: u64 },
+    /// The callback returned and was reinserted (`true`) or dropped (`false`).
+    End{ sys: Entity, ticket: u64, reinserted: bool },
+    /// A leftover buffered command is discarded at the root.
+    Discard{ sys: Entity, ticket: u64 },
+    /// The runner returns.
+    Exit{ sys: Entity, ticket: u64 },
+}
+
+static RUNNER_SINK: Mutex<Option<Box<dyn Fn(RunnerEvent) + Send + Sync + 'static>>> = Mutex::new(None);
+
+/// Installs (or removes) the process-wide runner event sink.
+pub fn set_runner_sink(sink: Option<Box<dyn Fn(RunnerEvent) + Send + Sync + 'static>>)
+{
+    *RUNNER_SINK.lock().unwrap_or_else(|e| e.into_inner()) = sink;
+}
+
+pub(crate) fn emit(event: RunnerEvent)
+{
+    let guard = RUNNER_SINK.lock().unwrap_or_else(|e| e.into_inner());
+    if let Some(sink) = guard.as_ref() { (sink)(event); }
+}
